@@ -403,6 +403,116 @@ theorem settled_run_is_noop (conv : Conv C) (r : RunSpec) (pus : List (Plot × (
   unfold runSpec runSeparate; rw [hl]; simp only [hms, hp]; exact hrun
 
 
+/-! ## the exact extent of the finding (bookkeeping level, one plot) -/
+
+/-- **The finding in general** (not only on the witness): whenever a run starts with the CSV file missing while the
+`.tex` file is on disk and unchanged and the pdf exists (and `LaTeXToPDF` is not told to overwrite), the pdf file
+is *left exactly as it was* — whatever the new data are.  (`Write` creates the CSV file and leaves
+`output.changed` unset; the second `Write` turns it into `False`; `LaTeXToPDF` skips.) -/
+theorem stale_when_csv_missing (conv : Conv C) (m1 m2 : WMode) (po : Bool) (u : FUnit) (pc : String) (ncsv ntex : C)
+    (w : World C) (ft pf : File C) (hd : u.Distinct) (hpc : pc ≠ u.tex ∧ pc ≠ u.pdf ∧ pc ≠ u.png)
+    (hc : w.fs pc = none) (ht : w.fs u.tex = some ft) (hm2 : m2 ≠ .overwrite)
+    (htc : m2 = .existingUnchanged ∨ ft.content = ntex) (hp : w.fs u.pdf = some pf) :
+    ∃ w' c, sepCore conv m1 m2 false po u pc ncsv ntex w = .ok (w', some c) ∧ w'.fs u.pdf = some pf ∧
+      HasContent w'.fs pc ncsv := by
+  obtain ⟨_, _, _, htp, htg, hpg⟩ := hd
+  obtain ⟨h1, h2, h3⟩ := hpc
+  have hw1 : writeCore m1 pc ncsv w none = (w.put pc ncsv (.write pc), none) := by unfold writeCore; rw [hc]
+  have ht1 : (w.put pc ncsv (.write pc)).fs u.tex = some ft := by rw [put_fs_ne _ _ _ (Ne.symm h1)]; exact ht
+  have hp1 : (w.put pc ncsv (.write pc)).fs u.pdf = some pf := by rw [put_fs_ne _ _ _ (Ne.symm h2)]; exact hp
+  unfold sepCore downCore
+  simp only [hw1]
+  rw [writeCore_noop m2 u.tex ntex _ none ft ht1 hm2 htc]
+  simp only [Option.getD_none]
+  unfold convCore
+  rw [latexCore_skip conv u.tex u.pdf _ (by rw [hp1]; rfl)]
+  simp only
+  refine ⟨_, _, rfl, ?_, ?_⟩
+  · unfold pngCore
+    split
+    · simp only [hp1]; rw [put_fs_ne _ _ _ hpg]; exact hp1
+    · exact hp1
+  · unfold pngCore
+    split
+    · simp only [hp1]; exact ⟨_, by rw [put_fs_ne _ _ _ h3, put_fs_eq], rfl⟩
+    · exact ⟨_, put_fs_eq _ _ _ _, rfl⟩
+
+/-- the same for a missing `.tex` file when the CSV file is on disk and unchanged: the re-created `.tex` file (new
+template) does not make `LaTeXToPDF` regenerate the pdf -/
+theorem stale_when_tex_missing (conv : Conv C) (m1 m2 : WMode) (po : Bool) (u : FUnit) (pc : String) (ncsv ntex : C)
+    (w : World C) (fc pf : File C) (hd : u.Distinct)
+    (hc : w.fs pc = some fc) (hm1 : m1 ≠ .overwrite) (hcc : m1 = .existingUnchanged ∨ fc.content = ncsv)
+    (ht : w.fs u.tex = none) (hp : w.fs u.pdf = some pf) :
+    ∃ w' c, sepCore conv m1 m2 false po u pc ncsv ntex w = .ok (w', some c) ∧ w'.fs u.pdf = some pf ∧
+      HasContent w'.fs u.tex ntex := by
+  obtain ⟨_, _, _, htp, htg, hpg⟩ := hd
+  have hw2 : writeCore m2 u.tex ntex w (some false) = (w.put u.tex ntex (.write u.tex), some false) := by
+    unfold writeCore; rw [ht]
+  have hp1 : (w.put u.tex ntex (.write u.tex)).fs u.pdf = some pf := by rw [put_fs_ne _ _ _ (Ne.symm htp)]; exact hp
+  unfold sepCore downCore
+  rw [writeCore_noop m1 pc ncsv w none fc hc hm1 hcc]
+  simp only [Option.getD_none, hw2]
+  unfold convCore
+  rw [latexCore_skip conv u.tex u.pdf _ (by rw [hp1]; rfl)]
+  simp only
+  refine ⟨_, _, rfl, ?_, ?_⟩
+  · unfold pngCore
+    split
+    · simp only [hp1]; rw [put_fs_ne _ _ _ hpg]; exact hp1
+    · exact hp1
+  · unfold pngCore
+    split
+    · simp only [hp1]; exact ⟨_, by rw [put_fs_ne _ _ _ htg, put_fs_eq], rfl⟩
+    · exact ⟨_, put_fs_eq _ _ _ _, rfl⟩
+
+/-- **Outside the finding**: when *both* source files of a plot are missing, `output.changed` stays unset through
+both `Write`s, `LaTeXToPDF` compares modification times, the `.tex` file written in this run is newer than any pdf
+of an earlier run (`ClockInv`), and everything is regenerated — no `SourceClosed` hypothesis. -/
+theorem fresh_when_all_sources_missing (conv : Conv C) (m1 m2 : WMode) (lo po : Bool) (u : FUnit) (pc : String)
+    (ncsv ntex : C) (w : World C) (hu : u.csvs = [pc]) (hd : u.Distinct) (hclk : ClockInv w)
+    (hc : w.fs pc = none) (ht : w.fs u.tex = none) (hdeps : conv.depsOf ntex = u.csvs) :
+    ∃ w' c, sepCore conv m1 m2 lo po u pc ncsv ntex w = .ok (w', some c) ∧ UnitFresh conv u w'.fs [ncsv] ntex := by
+  have hd' := hd
+  obtain ⟨htc, hpc', hgc, htp, htg, hpg⟩ := hd'
+  have hpct : pc ≠ u.tex := fun h => htc (by rw [hu, ← h]; simp)
+  have hpcp : pc ≠ u.pdf := fun h => hpc' (by rw [hu, ← h]; simp)
+  have hpcg : pc ≠ u.png := fun h => hgc (by rw [hu, ← h]; simp)
+  have hw1 : writeCore m1 pc ncsv w none = (w.put pc ncsv (.write pc), none) := by unfold writeCore; rw [hc]
+  have ht1 : (w.put pc ncsv (.write pc)).fs u.tex = none := by rw [put_fs_ne _ _ _ (Ne.symm hpct)]; exact ht
+  have hw2 : writeCore m2 u.tex ntex (w.put pc ncsv (.write pc)) none
+      = ((w.put pc ncsv (.write pc)).put u.tex ntex (.write u.tex), none) := by unfold writeCore; rw [ht1]
+  -- LaTeXToPDF launches: the pdf is missing, or older than the .tex file written now
+  have hlaunch : latexCore conv lo u.tex u.pdf ((w.put pc ncsv (.write pc)).put u.tex ntex (.write u.tex)) none
+      = .ok (((w.put pc ncsv (.write pc)).put u.tex ntex (.write u.tex)).put u.pdf
+          (conv.pdfOf ntex [some ncsv]) (.latex u.tex), true, true) := by
+    have hdc : depContents ((w.put pc ncsv (.write pc)).put u.tex ntex (.write u.tex)).fs (conv.depsOf ntex) = [some ncsv] := by
+      rw [hdeps, hu]; simp [depContents, put_fs_ne _ _ _ hpct]
+    unfold latexCore
+    simp only [put_fs_eq]
+    cases hp : w.fs u.pdf with
+    | none =>
+      have : ((w.put pc ncsv (.write pc)).put u.tex ntex (.write u.tex)).fs u.pdf = none := by
+        rw [put_fs_ne _ _ _ (Ne.symm htp), put_fs_ne _ _ _ (Ne.symm hpcp)]; exact hp
+      simp only [this, Option.isSome_none, Bool.and_false, Bool.false_and, Bool.false_eq_true, if_false]
+      unfold depContents at hdc; rw [hdc]
+    | some pf =>
+      have hpf : ((w.put pc ncsv (.write pc)).put u.tex ntex (.write u.tex)).fs u.pdf = some pf := by
+        rw [put_fs_ne _ _ _ (Ne.symm htp), put_fs_ne _ _ _ (Ne.symm hpcp)]; exact hp
+      have hlt : pf.mtime < (w.put pc ncsv (.write pc)).clock := by have := hclk _ _ hp; simp; omega
+      simp only [hpf, hlt, decide_true, Bool.not_true, Bool.and_false, Bool.false_eq_true, if_false]
+      unfold depContents at hdc; rw [hdc]
+  unfold sepCore downCore
+  simp only [hw1, hw2]
+  unfold convCore
+  rw [hlaunch]
+  simp only
+  rw [pngCore_run conv po u.pdf u.png _ (some true) ⟨_, _⟩ (put_fs_eq _ _ _ _) (.inr (.inr rfl))]
+  refine ⟨_, _, rfl, ?_, ?_, ?_, ?_⟩
+  · rw [hu]; simp [depContents, put_fs_ne _ _ _ hpcg, put_fs_ne _ _ _ hpcp, put_fs_ne _ _ _ hpct]
+  · exact ⟨_, by rw [put_fs_ne _ _ _ htg, put_fs_ne _ _ _ htp, put_fs_eq], rfl⟩
+  · exact ⟨_, by rw [put_fs_ne _ _ _ hpg, put_fs_eq], rfl⟩
+  · exact ⟨_, put_fs_eq _ _ _ _, rfl⟩
+
 /-! ## `output.changed` is true whenever a file's content changed and stays true downstream -/
 
 /-- `Write` never turns `True` into anything else (all modes, all states of the file) -/
@@ -910,6 +1020,46 @@ theorem group_fresh_partial (conv : Conv C) (hok : ConvOK conv) (r : RunSpec) (m
     subst hov
     exact ⟨w', v, by rw [hrun, ht]; rfl, hdata, hfresh, hframe, hck, hinv'⟩
 
+
+/-- along the history every run is a run of the group `u` (any members' data, template, options) that starts
+`SourceClosed` -/
+def GroupSourceClosedHist (conv : Conv C) (u : FUnit) : World C → List HStep → Prop
+  | _, [] => True
+  | w, .del ps :: rest => GroupSourceClosedHist conv u (step conv w (.del ps)) rest
+  | w, .run r :: rest =>
+    (∃ mems, GroupOK r mems u) ∧ SourceClosed u w.fs ∧ GroupSourceClosedHist conv u (step conv w (.run r)) rest
+
+/-- after every run of the history the files of the group are fresh -/
+def GroupFreshHist (conv : Conv C) (u : FUnit) : World C → List HStep → Prop
+  | _, [] => True
+  | w, .del ps :: rest => GroupFreshHist conv u (step conv w (.del ps)) rest
+  | w, .run r :: rest =>
+    (∃ mems v, GroupOK r mems u ∧ runSpec conv w r = .ok (step conv w (.run r), [v]) ∧ v.data = .path u.png ∧
+      UnitFresh conv u (step conv w (.run r)).fs
+        (mems.map fun x => effective r.cfg.w1 (w.fs x.2.2) (conv.csvOf x.1.data))
+        (effective r.cfg.w2 (w.fs u.tex) (conv.texOf r.tpl u.csvs))) ∧
+    GroupFreshHist conv u (step conv w (.run r)) rest
+
+/-- **`history_fresh_partial` for the group layout**: all histories of runs of a group (changing data of any
+members, templates, option settings) and removals of arbitrary files in which no run starts with a source file
+missing while the combined pdf exists. -/
+theorem group_history_fresh_partial (conv : Conv C) (hok : ConvOK conv) (u : FUnit) :
+    ∀ (h : List HStep) (w : World C), ClockInv w → UnitInv conv u w.fs → GroupSourceClosedHist conv u w h →
+      GroupFreshHist conv u w h := by
+  intro h
+  induction h with
+  | nil => intro _ _ _ _; trivial
+  | cons s rest ih =>
+    intro w hclk hinv hsc
+    cases s with
+    | del ps => exact ih _ (hclk.del ps) (hinv.del ps) hsc
+    | run r =>
+      obtain ⟨⟨mems, hr⟩, hscw, hrest⟩ := hsc
+      obtain ⟨w', v, hrun, hdata, hfresh, _, hck, hinv'⟩ := group_fresh_partial conv hok r mems u w hr hclk hinv hscw
+      have hstep : step conv w (.run r) = w' := by simp only [step, hrun]
+      refine ⟨⟨mems, v, hr, by rw [hstep]; exact hrun, hdata, by rw [hstep]; exact hfresh⟩, ?_⟩
+      rw [hstep] at hrest ⊢
+      exact ih w' hck hinv' hrest
 
 /-! ## the hypotheses are satisfiable: concrete non-trivial instances -/
 
